@@ -87,6 +87,8 @@ where
     T: IsNone + Clone,
     T::Inner: Number + NumFromVal,
     usize: Cast<T::Inner>,
+    // not needed today; keeps the engine building if the front end asks for it
+    f64: Cast<T::Inner>,
     C: Vec1<T> + SeqObs,
 {
     let c: C = match kind {
@@ -149,6 +151,7 @@ fn polars_gen(g: &Gen) -> Result<Vec<Obs>, String> {
         T: IsNone + Clone,
         T::Inner: Number + NumFromVal,
         usize: Cast<T::Inner>,
+        f64: Cast<T::Inner>,
         C: Vec1<T>,
     {
         match kind {
@@ -198,7 +201,43 @@ fn gen_oracle(g: &Gen, items: &[Obs]) -> Result<(), String> {
             let a = start.as_ref().map(|v| v.as_f64()).unwrap_or(0.0);
             let b = end.as_f64();
             let s = step.as_ref().map(|v| v.as_f64()).unwrap_or(1.0);
-            if !float {
+            let ival = |v: &Option<Val>, d: i128| match v {
+                Some(Val::I(i)) => Some(*i as i128),
+                None => Some(d),
+                _ => None,
+            };
+            let big = |v: &Option<Val>| matches!(v, Some(Val::I(i)) if i.unsigned_abs() > (1u64 << 52));
+            if !float && (big(start) || big(&Some(end.clone())) || big(step)) {
+                // magnitudes beyond f64's exact integers: compare in integer arithmetic
+                let (Some(a), Some(b), Some(s)) = (ival(start, 0), ival(&Some(end.clone()), 0), ival(step, 1)) else {
+                    return Err(format!("{HARNESS} integer range with non-integer bounds"));
+                };
+                let mut want: Vec<i128> = vec![];
+                let mut x = a;
+                while (s > 0 && x < b) || (s < 0 && x > b) {
+                    want.push(x);
+                    x += s;
+                    if want.len() > DRAIN_LIMIT {
+                        break;
+                    }
+                }
+                let got: Vec<i128> = items
+                    .iter()
+                    .map(|o| match o {
+                        Obs::B(bits) => *bits as i64 as i128,
+                        _ => i128::MIN,
+                    })
+                    .collect();
+                if want != got {
+                    return Err(format!(
+                        "range({a}, {b}, {s}) should be {} elements {:?}.., got {} elements {:?}..",
+                        want.len(),
+                        &want[..want.len().min(12)],
+                        got.len(),
+                        &got[..got.len().min(12)]
+                    ));
+                }
+            } else if !float {
                 let mut want = vec![];
                 let mut x = a;
                 while (s > 0.0 && x < b) || (s < 0.0 && x > b) {
